@@ -192,6 +192,12 @@ class FnWiring:
             for d in base:
                 if d[0] in ("tuple", "list") and isinstance(idx, int) and -len(d[1]) <= idx < len(d[1]):
                     out |= set(d[1][idx])
+                elif d[0] == "dictmerge" and isinstance(idx, str):
+                    hit = [v for k_, v in d[2] if k_ == idx]
+                    if hit:
+                        out |= set(hit[0])
+                    else:
+                        out |= {("item", b_, idx) for b_ in d[1]}      # the entry of the copied base object itself
                 else:
                     out.add(("item", d, idx))
             return out
@@ -277,6 +283,9 @@ class FnWiring:
             if f.id == "cast" and len(e.args) == 2:
                 return set(args[1])
             if f.id == "dict":
+                if args:
+                    # dict(BASE, k=v, ...): a SHALLOW copy of BASE updated with the keywords - the values of BASE are shared with it
+                    return {("dictmerge", frozenset(args[0]), tuple(sorted((k, v) for k, v in kws.items())))}
                 return {("dict", tuple(sorted((k, v) for k, v in kws.items())))}
             if f.id in env:
                 # call through a local: a class-valued variable (klass) or a nested function
@@ -686,6 +695,8 @@ def simplify(d):
         return f"global:{d[1]}"
     if k == "dict":
         return "{" + ", ".join(f"{a}: " + "|".join(sorted(simplify(x) for x in b)) for a, b in d[1]) + "}"
+    if k == "dictmerge":
+        return "{**" + "|".join(sorted(simplify(x) for x in d[1])) + (", " if d[2] else "") + ", ".join(f"{a}: " + "|".join(sorted(simplify(x) for x in b)) for a, b in d[2]) + "}"
     return str(k)
 
 
